@@ -42,6 +42,11 @@ package project
 //@   loop over for#1: invariant -1 <= i && i < len(p)
 //@   loop over for#1: invariant forall j: int :: i < j && j < len(p) ==> (p[j] != 47 && p[j] != 64)
 
+// TrimPathVersion keeps exactly the part SplitPathVersion puts before the '@' (the whole path when
+// there is none): verified against SplitPathVersion's contract.
+//@ func project.TrimPathVersion variant prefix
+//@   ensures whole-or-cut-at-an-at-sign: result == p || (len(result) < len(p) && p[len(result)] == 64)
+
 // The major-version suffix is dropped exactly for "", v0 and v1.
 //@ func project.JoinPathVersion
 //@   ensures dropped: (major == "" || major == "v0" || major == "v1") ==> result == p
